@@ -284,6 +284,16 @@ func genBaseLimits(g *G) {
 	around("b32decSafeLen", maxDec32)
 	around("b32decSafeNoPadLen", maxDec32)
 	around("b64decSafeLen", maxDec64)
+	// the limit counts every byte: oversize input whose excess consists of line breaks is still oversize,
+	// and input of exactly the limit that contains line breaks is still admitted by the guard
+	for _, c := range []struct {
+		name string
+		max  int
+	}{{"b32", maxDec32}, {"b32nopad", maxDec32}, {"b64", maxDec64}} {
+		for _, cb := range [][2]int{{c.max, 1}, {c.max - 1, 2}, {c.max - 1, 1}, {c.max - 7, 8}, {1, 1}, {0, 1}, {0, 2}} {
+			g.emit("!decSafeBreaks", c.name, itoa(cb[0]), itoa(cb[1]))
+		}
+	}
 }
 
 func init() {
